@@ -28,12 +28,15 @@ import (
 	"sort"
 	"strings"
 	"sync"
+	"sync/atomic"
 	"testing"
 	"time"
 
 	kit "github.com/dapr/kit/crypto"
 	"github.com/dapr/kit/crypto/aescbcaead"
 	"github.com/dapr/kit/crypto/aeskw"
+	"github.com/dapr/kit/crypto/padding"
+	"github.com/lestrrat-go/jwx/v2/jwk"
 
 	"verifharness/c03/cref"
 	"verifharness/internal/ev"
@@ -60,9 +63,15 @@ type Case struct {
 	GNonce   int    `json:"gNonce"`
 	GTag     int    `json:"gTag"`
 	Hash     int    `json:"hash"`
+	PadV     int    `json:"padV"`    // mut == "pad": value of the last plaintext byte
+	PadTail  string `json:"padTail"` // mut == "pad": full | lastonly | broken
+	Seq      string `json:"seq"`     // history case: kind of the other key that used the same key id before
+
+	kid string // key id put on every jwk.Key of this execution ("" = none)
 }
 
 type call struct {
+	Phase   string // history cases: "alone" | "after"
 	Idx     int
 	Xor     int
 	Outcome string
@@ -292,6 +301,8 @@ func execCase(cs Case, seed int64, pos positions) (r run) {
 		}
 	}()
 	switch {
+	case cs.Mut == "pad":
+		execPad(cs, seed, one)
 	case cs.Fn == "aeskw.Wrap" || cs.Fn == "aeskw.Unwrap":
 		execKW(cs, seed, pos, &r, one)
 	case cs.Fn == "aescbcaead.Seal" || cs.Fn == "aescbcaead.Open":
@@ -310,11 +321,185 @@ func execCase(cs Case, seed int64, pos positions) (r run) {
 
 func isAsymFam(f string) bool { return f == "rsa15" || f == "oaep" }
 
+// keyFor builds the jwk.Key of (kind, bits, idx); history cases put their key id on it.
+func keyFor(cs Case, kind string, bits, idx int) (jwk.Key, error) {
+	k, err := cref.JWK(kind, bits, idx)
+	if err == nil && cs.kid != "" {
+		err = k.Set(jwk.KeyIDKey, cs.kid)
+	}
+	return k, err
+}
+
+var kidSeq atomic.Int64
+
+// execSeq executes a history case: the call on its own (fresh key id), then
+// unrelated calls with ANOTHER key of kind cs.Seq under a second key id, then
+// the same call again with the case's key carrying that second key id.
+func execSeq(cs Case, seed int64, pos positions) (r run) {
+	n := kidSeq.Add(1)
+	a := cs
+	a.kid = fmt.Sprintf("verif-alone-%d", n)
+	r1 := execCase(a, seed, pos)
+	shared := fmt.Sprintf("verif-shared-%d", n)
+	prior(cs, shared, seed)
+	b := cs
+	b.kid = shared
+	r2 := execCase(b, seed, pos)
+	r.compLen = 1
+	for i, rr := range []run{r1, r2} {
+		for _, c := range rr.calls {
+			c.Phase = []string{"alone", "after"}[i]
+			r.calls = append(r.calls, c)
+		}
+	}
+	return r
+}
+
+// prior makes sign/verify/encrypt/decrypt calls with the idx-1 key of kind
+// cs.Seq carrying key id kid (their results are not constrained here).
+func prior(cs Case, kid string, seed int64) {
+	kind, bits := cs.Seq, map[string]int{"rsa": 2048, "ec": 256, "okp": 255}[cs.Seq]
+	mk := func(k string) jwk.Key {
+		key, err := cref.JWK(k, bits, 1)
+		if err == nil {
+			err = key.Set(jwk.KeyIDKey, kid)
+		}
+		if err != nil {
+			panic(err)
+		}
+		return key
+	}
+	priv, pub := mk(kind), mk(kind+"-pub")
+	sigAlgs := map[string][]string{"rsa": {"RS256", "PS256"}, "ec": {"ES256"}, "okp": {"EdDSA"}}[kind]
+	encAlgs := map[string][]string{"rsa": {"RSA-OAEP", "RSA1_5"}}[kind]
+	if cs.GKeyKind == kind { // also the algorithm of the case itself
+		if isAsymFam(cs.Fam) {
+			encAlgs = append(encAlgs, cs.Alg)
+		} else if cs.Fam != "ecdsa" || cs.GKeyBits == bits {
+			sigAlgs = append(sigAlgs, cs.Alg)
+		}
+	}
+	guard(func() {
+		for _, alg := range sigAlgs {
+			n := map[string]int{"RS256": 32, "PS256": 32, "ES256": 32, "EdDSA": 32}[alg]
+			if n == 0 {
+				n = cs.InLen
+			}
+			d := msgBytes(seed+3, n)
+			sig, err := kit.SignPrivateKey(cp(d), alg, priv)
+			if err == nil {
+				_, _ = kit.VerifyPublicKey(cp(d), cp(sig), alg, pub)
+				_, _ = kit.VerifyPublicKey(cp(d), cp(sig), alg, priv)
+			}
+		}
+		for _, alg := range encAlgs {
+			m := msgBytes(seed+4, 24)
+			ct, err := kit.EncryptPublicKey(cp(m), alg, pub, nil)
+			if err == nil {
+				_, _ = kit.DecryptPrivateKey(cp(ct), alg, priv, nil)
+			}
+			if ct, _, err = kit.Encrypt(cp(m), alg, priv, nil, nil); err == nil {
+				_, _ = kit.Decrypt(cp(ct), alg, priv, nil, nil, nil)
+			}
+		}
+	})
+}
+
+// padBuf builds the plaintext of a padding case: inLen bytes, none of them
+// equal to padV except the tail the case asks for.
+func padBuf(cs Case, seed int64) []byte {
+	L, v := cs.InLen, cs.PadV
+	buf := msgBytes(seed, L)
+	for i := range buf {
+		if buf[i] == byte(v) {
+			buf[i] ^= 0x5a
+		}
+	}
+	switch cs.PadTail {
+	case "lastonly":
+		buf[L-1] = byte(v)
+	case "full", "broken":
+		for i := L - v; i < L; i++ {
+			buf[i] = byte(v)
+		}
+		if cs.PadTail == "broken" {
+			buf[L-v] ^= 0x5a
+		}
+	default:
+		panic("pad tail " + cs.PadTail)
+	}
+	return buf
+}
+
+// execPad: UnpadPKCS7 directly, or the decryption of a CBC ciphertext whose
+// plaintext was encrypted WITHOUT padding by the reference.
+func execPad(cs Case, seed int64, one func(call)) {
+	buf := padBuf(cs, seed)
+	want, rerr := cref.Unpad(buf, 16)
+	iv := cref.Det(saltNonce, 16)
+	var out []byte
+	var cerr error
+	var f func()
+	switch {
+	case cs.Fn == "padding.UnpadPKCS7":
+		f = func() { out, cerr = padding.UnpadPKCS7(cp(buf), 16) }
+	case cs.Fam == "cbc":
+		key := cref.Oct(cs.KeyBits / 8)
+		ct, err := cref.CBCEncryptRaw(key, iv, buf)
+		if err != nil {
+			panic(err)
+		}
+		jk, _ := keyFor(cs, "oct", cs.KeyBits, 0)
+		f = func() {
+			if cs.Fn == "Decrypt" {
+				out, cerr = kit.Decrypt(cp(ct), cs.Alg, jk, cp(iv), nil, nil)
+			} else {
+				out, cerr = kit.DecryptSymmetric(cp(ct), cs.Alg, jk, cp(iv), nil, nil)
+			}
+		}
+	case cs.Fam == "cbchmac":
+		p, _ := cref.CBCHMACByName(cs.Alg)
+		key := cref.Oct(cs.KeyBits / 8)
+		ct, err := cref.CBCEncryptRaw(p.EncKey(key), iv, buf)
+		if err != nil {
+			panic(err)
+		}
+		tag := p.Tag(key, iv, ct, nil) // the sender holds the key: the MAC is genuine
+		jk, _ := keyFor(cs, "oct", cs.KeyBits, 0)
+		switch cs.Fn {
+		case "Decrypt":
+			f = func() { out, cerr = kit.Decrypt(cp(ct), cs.Alg, jk, cp(iv), cp(tag), nil) }
+		case "DecryptSymmetric":
+			f = func() { out, cerr = kit.DecryptSymmetric(cp(ct), cs.Alg, jk, cp(iv), cp(tag), nil) }
+		default:
+			aead, aerr := aeadCtor(cs.Alg)(key)
+			if aerr != nil {
+				panic(aerr)
+			}
+			f = func() { out, cerr = aead.Open(nil, cp(iv), cp(append(cp(ct), tag...)), nil) }
+		}
+	default:
+		panic("padding case for " + cs.Fn + "/" + cs.Fam)
+	}
+	if p, pm := guard(f); p {
+		one(call{Outcome: "panic", Rt: "na", Ref: "na", Noout: "na", Detail: pm})
+		return
+	}
+	c := call{Outcome: classify(cerr), Rt: "na", Noout: "na"}
+	if cerr != nil {
+		c.Noout, c.Detail = yn(len(out) == 0), cerr.Error()
+		c.Ref = yn(rerr != nil)
+	} else {
+		c.Ref = yn(rerr == nil && bytes.Equal(out, want))
+	}
+	one(c)
+}
+
 func execEnc(cs Case, seed int64, one func(call)) {
 	pt := msgBytes(seed, cs.InLen)
 	nonce := cref.Det(saltNonce, cs.NonceLen)
 	aad := cref.Det(saltAad, cs.AadLen)
-	key, err := cref.JWK(cs.KeyKind, cs.KeyBits, 0)
+	key, err := keyFor(cs, cs.KeyKind, cs.KeyBits, 0)
 	if err != nil {
 		panic(err)
 	}
@@ -344,7 +529,7 @@ func execEnc(cs Case, seed int64, one func(call)) {
 	// round trip through the real package
 	dkey := key
 	if isAsymFam(cs.Fam) && privKind(cs.KeyKind) == "rsa" {
-		dkey, _ = cref.JWK("rsa", cs.KeyBits, 0)
+		dkey, _ = keyFor(cs, "rsa", cs.KeyBits, 0)
 	}
 	var back []byte
 	var derr error
@@ -442,7 +627,7 @@ func deform(cs Case, mut string, ct, tag, nonce, aad []byte) ([]byte, []byte) {
 
 func execDec(cs Case, seed int64, pos positions, r *run, one func(call)) {
 	pt, ct, tag, gnonce, aad := decInput(cs, seed)
-	key, err := cref.JWK(cs.KeyKind, cs.KeyBits, 0)
+	key, err := keyFor(cs, cs.KeyKind, cs.KeyBits, 0)
 	if err != nil {
 		panic(err)
 	}
@@ -509,7 +694,7 @@ func execDec(cs Case, seed int64, pos positions, r *run, one func(call)) {
 
 func execSign(cs Case, seed int64, one func(call)) {
 	digest := msgBytes(seed, cs.InLen)
-	key, err := cref.JWK(cs.KeyKind, cs.KeyBits, 0)
+	key, err := keyFor(cs, cs.KeyKind, cs.KeyBits, 0)
 	if err != nil {
 		panic(err)
 	}
@@ -527,7 +712,7 @@ func execSign(cs Case, seed int64, one func(call)) {
 		one(c)
 		return
 	}
-	pub, _ := cref.JWK(pubKind(cs.KeyKind), cs.KeyBits, 0)
+	pub, _ := keyFor(cs, pubKind(cs.KeyKind), cs.KeyBits, 0)
 	var valid bool
 	var verr error
 	p, _ = guard(func() { valid, verr = kit.VerifyPublicKey(cp(digest), cp(sig), cs.Alg, pub) })
@@ -546,7 +731,7 @@ func execSign(cs Case, seed int64, one func(call)) {
 
 func execVerify(cs Case, seed int64, pos positions, r *run, one func(call)) {
 	digest := msgBytes(seed, cs.InLen)
-	key, err := cref.JWK(cs.KeyKind, cs.KeyBits, 0)
+	key, err := keyFor(cs, cs.KeyKind, cs.KeyBits, 0)
 	if err != nil {
 		panic(err)
 	}
@@ -761,14 +946,33 @@ func execAEAD(cs Case, seed int64, pos positions, r *run, one func(call)) {
 // trace, keys, check
 
 func resetOf(cs Case, compLen int, full bool) tv.M {
-	return tv.M{"fn": cs.Fn, "alg": cs.Alg, "keyKind": cs.KeyKind, "keyBits": cs.KeyBits, "nonceLen": cs.NonceLen,
+	m := tv.M{"fn": cs.Fn, "alg": cs.Alg, "keyKind": cs.KeyKind, "keyBits": cs.KeyBits, "nonceLen": cs.NonceLen,
 		"tagLen": cs.TagLen, "inLen": cs.InLen, "aadLen": cs.AadLen, "mut": cs.Mut, "compLen": compLen, "full": full}
+	if cs.Mut == "pad" {
+		m["padV"], m["padTail"] = cs.PadV, cs.PadTail
+	}
+	if cs.Seq != "" {
+		m["seq"] = cs.Seq
+	}
+	return m
+}
+
+// exec executes a case (history cases: twice, around the unrelated calls).
+func exec(cs Case, seed int64, pos positions) run {
+	if cs.Seq != "" {
+		return execSeq(cs, seed, pos)
+	}
+	return execCase(cs, seed, pos)
 }
 
 func record(b *tv.Batch, cs Case, r run, full bool) int {
 	tr := b.Start(resetOf(cs, r.compLen, full))
 	for _, c := range r.calls {
-		b.Ev("call", tv.M{"idx": c.Idx, "outcome": c.Outcome, "rt": c.Rt, "ref": c.Ref, "noout": c.Noout})
+		m := tv.M{"idx": c.Idx, "outcome": c.Outcome, "rt": c.Rt, "ref": c.Ref, "noout": c.Noout}
+		if c.Phase != "" {
+			m["phase"] = c.Phase
+		}
+		b.Ev("call", m)
 	}
 	b.Ev("end", nil)
 	return tr
@@ -791,9 +995,28 @@ func findingKey(cs Case, why string) string {
 		return fmt.Sprintf("ecdsa-curve-mismatch:%s/P-%d", cs.Alg, cs.KeyBits)
 	case "supported-list-mismatch":
 		return "supported-list-mismatch:" + cs.Fn
+	case "history-dependent":
+		return "history-dependent:" + cs.Fn + ":" + cs.Alg + ":same-kid"
+	case "malformed-padding-accepted":
+		vc := "1..16"
+		switch {
+		case cs.PadV == 0:
+			vc = "0"
+		case cs.PadV > cs.InLen:
+			vc = ">len"
+		case cs.PadV > 16:
+			vc = "17..len"
+		}
+		via := cs.Fam
+		if cs.Fn == "padding.UnpadPKCS7" {
+			via = "UnpadPKCS7"
+		}
+		return fmt.Sprintf("malformed-padding-accepted:%s:v=%s/len=%d", via, vc, cs.InLen)
 	}
 	fam := cs.Fam
-	if fam == "none" {
+	if cs.Fn == "padding.UnpadPKCS7" {
+		fam = "UnpadPKCS7"
+	} else if fam == "none" {
 		fam = "name"
 	}
 	detail := cs.Mut
@@ -824,7 +1047,7 @@ func findingKey(cs Case, why string) string {
 }
 
 func nontrivial(cs Case) bool {
-	if cs.Mut != "none" || cs.Fam == "none" || cs.KeyKind != cs.GKeyKind || cs.KeyBits != cs.GKeyBits || cs.NonceLen != cs.GNonce {
+	if cs.Mut != "none" || cs.Seq != "" || cs.Fam == "none" || cs.KeyKind != cs.GKeyKind || cs.KeyBits != cs.GKeyBits || cs.NonceLen != cs.GNonce {
 		return true
 	}
 	if cs.Dir == "dec" && cs.TagLen != cs.GTag {
@@ -888,7 +1111,10 @@ func TestCheck(t *testing.T) {
 			Timeout: ev.Pick(4*time.Minute, 20*time.Minute), Args: []string{"-noGenerateSpecTE"}, Keep: []string{"cases.ndjson"}})
 	}()
 	// non-vacuity: the model of the code as found must be rejected by the monitor, one defect at a time
-	defects := []string{"nopad", "ecdsa", "kwlen", "openlen"}
+	defects := []string{"nopad", "ecdsa", "kwlen", "openlen", "padbound", "kidcache"}
+	if !thorough {
+		defects = nil // six more TLC runs: thorough tier only (the quick tier stays within its budget on a loaded machine)
+	}
 	defCh := make(chan [2]string, len(defects))
 	for _, d := range defects {
 		go func() {
@@ -937,7 +1163,7 @@ func TestCheck(t *testing.T) {
 		go func() {
 			defer wg.Done()
 			for i := range next {
-				runs[i] = execCase(cases[i], seed, pos)
+				runs[i] = exec(cases[i], seed, pos)
 			}
 		}()
 	}
@@ -960,7 +1186,7 @@ func TestCheck(t *testing.T) {
 		record(b, cs, runs[i], pos.full)
 		nCalls += int64(len(runs[i].calls))
 		if nontrivial(cs) {
-			e.Nontrivial(fmt.Sprintf("%s|%s|%s|%d|%d|%d|%d|%d|%s", cs.Fn, cs.Alg, cs.KeyKind, cs.KeyBits, cs.NonceLen, cs.TagLen, cs.InLen, cs.AadLen, cs.Mut))
+			e.Nontrivial(fmt.Sprintf("%s|%s|%s|%d|%d|%d|%d|%d|%s|%d|%s|%s", cs.Fn, cs.Alg, cs.KeyKind, cs.KeyBits, cs.NonceLen, cs.TagLen, cs.InLen, cs.AadLen, cs.Mut, cs.PadV, cs.PadTail, cs.Seq))
 		}
 	}
 	// the lists the package publishes
@@ -974,7 +1200,7 @@ func TestCheck(t *testing.T) {
 	fmt.Printf("executed %d cases, %d real calls in %s; %d trace lines\n", len(cases), nCalls, time.Since(t0).Round(time.Millisecond), b.Lines())
 	e.Set("evaluations", nCalls)
 	e.Set("outcome_classes_observed", outcomes)
-	e.Set("rule", "case = (entry point, algorithm name, key kind, key bits, nonce length, tag length, message length, AAD length, mutation), enumerated by TLC from spec/CryptoDispatch (CryptoDispatch!Groups/GroupCases: valid point x message lengths x AAD lengths; key-size, key-kind, nonce-length, tag-length sweeps; pairs of faults; unsupported/foreign names; every deformation of a valid input, byte flips at EVERY byte position of the component); each case executed once on the real package (flip cases: once per byte position and xor value), judged by TLC: outcome in Allowed(case), decrypt(encrypt)=id, agreement with the reference, no output on error. non-trivial = some fault or mutation present, or a message length with len%16 in {0,1,15} or > 64; distinct by the case tuple")
+	e.Set("rule", "case = (entry point, algorithm name, key kind, key bits, nonce length, tag length, message length, AAD length, mutation), enumerated by TLC from spec/CryptoDispatch (CryptoDispatch!Groups/GroupCases: valid point x message lengths x AAD lengths; key-size, key-kind, nonce-length, tag-length sweeps; pairs of faults; unsupported/foreign names; every deformation of a valid input, byte flips at EVERY byte position of the component; PKCS#7 tails: message of 1..4 blocks x last byte value v x tail full/lastonly/broken through UnpadPKCS7 and every padded-CBC decryption; history: signature / asymmetric-encryption calls with keys carrying a key id, alone and after calls with another rsa/ec/okp key under the same key id); each case executed once on the real package (flip cases: once per byte position and xor value), judged by TLC: outcome in Allowed(case), decrypt(encrypt)=id, agreement with the reference, no output on error. non-trivial = some fault or mutation present, or a message length with len%16 in {0,1,15} or > 64; distinct by the case tuple")
 	for _, i := range []int{0, len(cases) / 5, 2 * len(cases) / 5, 3 * len(cases) / 5, 4 * len(cases) / 5, len(cases) - 1} {
 		tr := b.TraceStrings(i)
 		if len(tr) > 6 {
@@ -1084,7 +1310,7 @@ func replay(e *ev.Evidence, path string, seed int64, pos positions) {
 		if r.Case.Alg == "" && strings.HasPrefix(r.Case.Fn, "Supported") {
 			continue
 		}
-		ru := execCase(r.Case, seed, pos)
+		ru := exec(r.Case, seed, pos)
 		cases, runs = append(cases, r.Case), append(runs, ru)
 		record(b, r.Case, ru, pos.full)
 		n += int64(len(ru.calls))
@@ -1121,7 +1347,13 @@ func selfTest(e *ev.Evidence, cases []Case, seed int64, pos positions) string {
 	enc, ok3 := pick(func(c Case) bool {
 		return c.Fn == "EncryptSymmetric" && c.Alg == "C20P" && c.Mut == "none" && c.KeyBits == 256 && c.NonceLen == 12 && c.InLen == 33
 	})
-	if !ok1 || !ok2 || !ok3 {
+	padc, ok4 := pick(func(c Case) bool {
+		return c.Fn == "DecryptSymmetric" && c.Alg == "A128CBC" && c.Mut == "pad" && c.InLen == 32 && c.PadV == 32 && c.PadTail == "full"
+	})
+	seqc, ok5 := pick(func(c Case) bool {
+		return c.Fn == "VerifyPublicKey" && c.Alg == "RS256" && c.Seq == "rsa" && c.KeyKind == "rsa-pub" && c.Mut == "none"
+	})
+	if !ok1 || !ok2 || !ok3 || !ok4 || !ok5 {
 		return "binding self-test: probe cases missing from the case space"
 	}
 	b := &tv.Batch{}
@@ -1159,6 +1391,12 @@ func selfTest(e *ev.Evidence, cases []Case, seed int64, pos positions) string {
 	b.AppendTrace(rewrite(g.Trace(2), `"rt":"yes"`, `"rt":"no"`, 0))    // 6: round trip broken
 	b.AppendTrace(rewrite(g.Trace(2), `"ref":"yes"`, `"ref":"no"`, 0))  // 7: reference disagrees
 	b.AppendTrace(rewrite(g.Trace(0), `"inLen":16`, `"inLen":5000`, 0)) // 8: a case outside the specification's case space
+	record(g, padc, exec(padc, seed, pos), true)
+	record(g, seqc, exec(seqc, seed, pos), true)
+	b.AppendTrace(g.Trace(3))                                                      // 9: 32 x 0x20 through A128CBC, as observed
+	b.AppendTrace(rewrite(g.Trace(3), `"outcome":"error"`, `"outcome":"ok"`, 0))   // 10: ... reported as accepted
+	b.AppendTrace(g.Trace(4))                                                      // 11: history case as observed
+	b.AppendTrace(rewrite(g.Trace(4), `"outcome":"ok"`, `"outcome":"invalid"`, 1)) // 12: the call after the same-kid calls differs
 	rej, res := tv.Validate(tlc.Opts{Dir: "CryptoDispatch", Module: "TraceCrypto", Config: "Trace_small.cfg", Workers: 2, Timeout: 3 * time.Minute}, b)
 	got := map[int]string{}
 	for _, r := range rej {
@@ -1166,9 +1404,11 @@ func selfTest(e *ev.Evidence, cases []Case, seed int64, pos positions) string {
 	}
 	okAll := (res.OK || res.Violation) && got[0] == "" && got[1] == "" && got[2] == "" &&
 		got[3] == "valid-rejected" && got[4] == "tamper-accepted" && strings.HasPrefix(got[5], "harness: byte positions missing") &&
-		got[6] == "roundtrip-failed" && got[7] == "reference-disagreement" && strings.HasPrefix(got[8], "harness: case outside")
+		got[6] == "roundtrip-failed" && got[7] == "reference-disagreement" && strings.HasPrefix(got[8], "harness: case outside") &&
+		got[10] == "malformed-padding-accepted" && got[12] == "history-dependent"
 	e.Set("binding_selftest", tv.M{"unmodified_accepted": got[0] == "" && got[1] == "" && got[2] == "", "valid_call_rewritten_to_error": got[3],
-		"tampered_tag_rewritten_to_ok": got[4], "byte_position_dropped": got[5], "roundtrip_rewritten": got[6], "reference_rewritten": got[7], "case_outside_space": got[8]})
+		"tampered_tag_rewritten_to_ok": got[4], "byte_position_dropped": got[5], "roundtrip_rewritten": got[6], "reference_rewritten": got[7], "case_outside_space": got[8],
+		"padding_case_as_observed": got[9], "malformed_padding_rewritten_to_ok": got[10], "history_case_as_observed": got[11], "call_after_same_kid_rewritten": got[12]})
 	if !okAll {
 		return fmt.Sprintf("binding self-test failed: %v %s", got, res.What)
 	}
